@@ -19,6 +19,11 @@ pub const CLOCK_MONOTONIC: libc::clockid_t = libc::CLOCK_MONOTONIC_COARSE;
 /// tracked by a specific clock. The clock_id is one of libc::CLOCK_REALTIME,
 /// libc::CLOCK_MONOTONIC, etc.
 pub fn clock_gettime_safe(clock_id: libc::clockid_t) -> Result<libc::timespec, ShmError> {
+    #[cfg(clockbound_verif)]
+    if let Some(ts) = crate::verif::clock_override(clock_id) {
+        return Ok(ts);
+    }
+
     // Allocate a buffer where the current time will be written to
     let mut buf: MaybeUninit<libc::timespec> = MaybeUninit::uninit();
 
